@@ -20,7 +20,8 @@ ASSUMPTIONS = ["block functions are parameters of the proved model; their equali
 
 def configs(tier):
     if tier == "quick":
-        return [("native", "", "plain"), ("native", "avx512f,avx2", "plain"), ("native", vcore.ALL_OFF, "plain")]
+        return [("native", "", "plain"), ("native", "avx512f,avx2", "plain"), ("native", vcore.ALL_OFF, "plain"),
+                ("native", "", "plain", {"HX_ALIGN": "5"})]     # every buffer 5 bytes past a malloc boundary (misaligned for 2/4/8/16/32)
     out = []
     for v in vcore.VARIANTS:
         for m in vcore.MASK_CHAIN:
